@@ -121,6 +121,7 @@ def _quoteattr(data, entities={}):
     """
     entities['\n']='&#10;'
     entities['\r']='&#13;'
+    entities['\t']='&#9;'
     data = _sanitize(data, entities)
     if '"' in data:
         if "'" in data:
@@ -317,7 +318,7 @@ class Text(Childless, Node):
     def toXml(self,level,f):
         """ Write XML in UTF-8 """
         if self.data:
-            f.write(_sanitize(unicode(self.data)))
+            f.write(_sanitize(unicode(self.data), {'\r': '&#13;'}))
     
 class CDATASection(Text, Childless):
     nodeType = Node.CDATA_SECTION_NODE
